@@ -647,6 +647,39 @@ func genCase(rng *hx.Rng, n int) []string {
 			}
 			ops = append(ops, fmt.Sprintf("commit %d", h), fmt.Sprintf("iter %d - fwd 0", v))
 			g.batches = append(g.batches, h)
+		case x < 895:
+			// finished-handle scenario: a batch handle that has been committed (or cancelled) is used again - Cancel (the usual
+			// `defer b.Cancel()`), more Set/Delete, a second Commit - while ANOTHER batch, created afterwards on the same or
+			// another view / wrapper stack, is being filled: the two handles must not influence each other
+			if g.closed {
+				continue
+			}
+			h1, h2 := newHandle(), newHandle()
+			v2 := pickView()
+			g.realm[h1], g.realm[h2] = g.realm[v], g.realm[v2]
+			k1, k2 := keyFor(g.realm[v]), keyFor(g.realm[v2])
+			ops = append(ops, fmt.Sprintf("batch %d %d", h1, v), fmt.Sprintf("bset %d %s %s", h1, k1, genBytes(rng, 4, valAlphabet)))
+			if rng.Chance(3, 4) {
+				ops = append(ops, fmt.Sprintf("commit %d", h1))
+			} else {
+				ops = append(ops, fmt.Sprintf("cancel %d", h1))
+			}
+			ops = append(ops, fmt.Sprintf("batch %d %d", h2, v2), fmt.Sprintf("bset %d %s %s", h2, k2, genBytes(rng, 4, valAlphabet)))
+			switch rng.Intn(5) {
+			case 0, 1:
+				ops = append(ops, fmt.Sprintf("cancel %d", h1))
+			case 2:
+				ops = append(ops, fmt.Sprintf("bset %d %s %s", h1, keyFor(g.realm[v]), genBytes(rng, 4, valAlphabet)))
+			case 3:
+				ops = append(ops, fmt.Sprintf("bdel %d %s", h1, hx.Hex(hx.UnHex(k2))))
+			default:
+				ops = append(ops, fmt.Sprintf("commit %d", h1))
+			}
+			ops = append(ops, fmt.Sprintf("commit %d", h2), fmt.Sprintf("get %d %s", v2, k2), "iter 0 - fwd 0")
+			if rng.Bool() {
+				ops = append(ops, fmt.Sprintf("commit %d", h1), "iter 0 - fwd 0")
+			}
+			g.batches = append(g.batches, h1, h2)
 		case x < 990:
 			if len(g.batches) == 0 {
 				continue
@@ -762,6 +795,10 @@ var corpus = [][]string{
 	{"view 1 0 01 abs", "view 2 1 7f ext", "set 0 017f00 aa", "batch 9 1", "bset 9 7f00 01", "bdel 9 7f00", "bset 9 7f01 02",
 		"bdel 9 00", "bset 9 00 03", "iter 0 - fwd 0", "commit 9", "iter 0 - fwd 0", "set 2 00 ee", "commit 9", "iter 0 - fwd 0",
 		"cancel 9", "set 2 00 ee", "commit 9", "get 2 00", "bset 9 - 10", "commitf 9", "iter 2 - bwd 0", "bset 9 - 11"},
+	// a committed handle is cancelled / reused while another batch is being filled (TestMapDB_Batched cancels after Commit, too)
+	{"view 1 0 01 abs", "batch 8 1", "bset 8 00 aa", "commit 8", "batch 9 0", "bset 9 0101 bb", "cancel 8", "commit 9", "get 0 0101",
+		"batch 7 1", "bset 7 02 cc", "bset 8 03 dd", "commit 7", "iter 0 - fwd 0", "commit 8", "iter 0 - fwd 0", "cancel 7", "commit 7",
+		"iter 0 - fwd 0"},
 	// close: every call on every view fails afterwards
 	{"wrap 1 0 f", "wrap 2 1 d", "view 3 2 01 ext", "set 3 00 01", "batch 8 3", "bset 8 01 02", "close 3", "get 0 0100", "has 1 00",
 		"set 2 00 00", "del 3 00", "delp 0 -", "clear 1", "iter 2 - fwd 0", "iterk 3 - bwd 0", "view 4 0 00 abs", "view 5 3 00 ext",
